@@ -124,6 +124,7 @@ func (ex *Exec) frameObligations(fr *Frame, out *State, entry *State, mods []Mod
 	env := ex.frameEnv(fr, entry, entry)
 	for _, mt := range mods {
 		switch {
+		case mt.Fresh:
 		case mt.All && len(mt.Except) > 0:
 			except = append(except, mt.Except...)
 		case mt.All:
@@ -596,8 +597,11 @@ func (ex *Exec) frameObligationsLoop(fr *Frame, out *State, head *State, pre *St
 	allowed := map[string][]*Term{}
 	whole := map[string]bool{}
 	env := ex.frameEnv(fr, pre, saved)
+	freshOK := false
 	for _, mt := range mods {
 		switch {
+		case mt.Fresh:
+			freshOK = true
 		case mt.All:
 			allowedAll = true
 		case mt.Key != "":
@@ -646,7 +650,11 @@ func (ex *Exec) frameObligationsLoop(fr *Frame, out *State, head *State, pre *St
 			r := Fresh("sk.frame.ref", srt.Idx)
 			var conds []*Term
 			if srt.Idx == IntSort {
-				conds = append(conds, Gt(r, IntLit(0)), Le(r, head.wm))
+				if freshOK {
+					conds = append(conds, Gt(r, IntLit(0)), Le(r, fr.entry.wm))
+				} else {
+					conds = append(conds, Gt(r, IntLit(0)), Le(r, head.wm))
+				}
 			}
 			for _, a := range allowed[k] {
 				conds = append(conds, Not(Eq(r, a)))
